@@ -12,6 +12,7 @@ import (
 	"sort"
 	"strings"
 
+	proxyv1alpha1 "github.com/kubewharf/kubegateway/pkg/apis/proxy/v1alpha1"
 	"github.com/kubewharf/kubegateway/pkg/clusters"
 
 	mg "verifharness/matchgen"
@@ -21,6 +22,7 @@ import (
 type Case struct {
 	Mode    string     `json:"mode"`   // "ci" | "ctl" | "run"
 	Global  string     `json:"global"` // --rate-limiter of the gateway: "", "local", "remote"
+	Stamp   bool       `json:"stamp,omitempty"` // versions carry the generation/uid the real REST strategies stamp (stamp.go)
 	Skip    bool       `json:"skip,omitempty"` // ci: ClusterInfo built with neither rest config nor health check (skipSyncEndpoints)
 	History []WObj     `json:"history,omitempty"`
 	Ops     []COp      `json:"ops,omitempty"`
@@ -168,8 +170,16 @@ func runCI(c *rig.Ctx, cs Case) verdict {
 	if len(cs.History) == 0 {
 		return pass
 	}
-	u := universeOf(cs.History, cs.Probes)
-	first := cs.History[0]
+	// what is stored / delivered for every version (written in order through the real REST strategies when cs.Stamp)
+	st := newStamper(cs.Stamp)
+	effs := make([]WObj, 0, len(cs.History))
+	objs := make([]*proxyv1alpha1.UpstreamCluster, 0, len(cs.History))
+	for _, o := range cs.History {
+		e, obj := st.write(o)
+		effs, objs = append(effs, e), append(objs, obj)
+	}
+	u := universeOf(effs, cs.Probes)
+	first := effs[0]
 	// rest config of the long-lived instance: from the first version (good endpoints only, so that it can be built)
 	cfgObj := first.clone()
 	cfgObj.Servers = nil
@@ -195,11 +205,11 @@ func runCI(c *rig.Ctx, cs Case) verdict {
 	}
 	freshes := make([]freshReal, 0, len(cs.History))
 	crashed := false
-	for i, o := range cs.History {
+	for i, o := range effs {
 		if crashed {
 			break
 		}
-		obj := o.Real(fmt.Sprint(i + 1))
+		obj := objs[i].DeepCopy()
 		var serr error
 		msg, panicked := rig.Recover(func() { serr = long.Sync(obj) })
 		sr := stepReal{}
@@ -226,13 +236,13 @@ func runCI(c *rig.Ctx, cs Case) verdict {
 		var ferr error
 		var fp bool
 		if cs.Skip {
-			fobj := o.Real(fmt.Sprint(i + 1))
+			fobj := objs[i].DeepCopy()
 			fci = clusters.NewEmptyClusterInfo(fobj.Name, nil, nil, cs.Global, nil)
 			_, fp = rig.Recover(func() { ferr = fci.Sync(fobj) })
 		} else if sr.Outcome == "ok" {
-			_, fp = rig.Recover(func() { fci, ferr = clusters.CreateClusterInfo(o.Real(fmt.Sprint(i+1)), cheapHealthCheck, cs.Global, nil) })
+			_, fp = rig.Recover(func() { fci, ferr = clusters.CreateClusterInfo(objs[i].DeepCopy(), cheapHealthCheck, cs.Global, nil) })
 		} else {
-			fobj := o.Real(fmt.Sprint(i + 1))
+			fobj := objs[i].DeepCopy()
 			cfg, cerr := clusters.VerifC11BuildRESTConfig(fobj)
 			if cerr != nil {
 				ferr = cerr
@@ -272,7 +282,7 @@ func runCI(c *rig.Ctx, cs Case) verdict {
 
 	// the model
 	hist := []map[string]interface{}{}
-	for i, o := range cs.History {
+	for i, o := range effs {
 		d := map[string]interface{}{"obj": o.Model()}
 		if i < len(reals) && reals[i].Ord != nil {
 			d["ord"] = rig.HexList(reals[i].Ord)
